@@ -51,6 +51,11 @@ var hookMu sync.Mutex
 type Conf struct {
 	Mark, A, B, C int
 	Sub           Iface2
+	// round 4 (over.go): one option of every structured kind
+	M map[string]int
+	L []int
+	R [3]int
+	P *Inner
 }
 
 type Iface interface{ Serial() int }
@@ -135,6 +140,8 @@ type world struct {
 	bad                 bool         // hook / engine path: the user's settings do not decode
 	vmin                int          // hook / engine path: the config type's validation rule is Conf.C >= vmin
 	yield               bool         // conc path: user code yields the processor
+	ext                 extDef       // round 4: registered defaults of the structured options (over.go)
+	ux                  [4]string    // round 4: the user's settings of the structured options
 	foreignFill         bool         // nest path: an error that is none of this world's is the decoder's (a nested creation failed)
 	onEndStep           func()
 	decodeFails         int
@@ -193,13 +200,13 @@ func (w *world) fillU(u [3]*int, conf interface{}) error {
 		return &tErr{"fill", i}
 	}
 	if c != nil {
-		if u[0] != nil {
+		if u[0] != nil && u[0] != nullInt {
 			c.A = *u[0]
 		}
-		if u[1] != nil {
+		if u[1] != nil && u[1] != nullInt {
 			c.B = *u[1]
 		}
-		if u[2] != nil {
+		if u[2] != nil && u[2] != nullInt {
 			c.C = *u[2]
 		}
 	}
@@ -212,9 +219,9 @@ func (w *world) build(serial int, arg []reflect.Value) *comp {
 	if len(arg) == 1 {
 		switch v := arg[0].Interface().(type) {
 		case Conf:
-			c.seen = v
+			c.seen = deepConf(v)
 		case *Conf:
-			c.seen = *v
+			c.seen = deepConf(*v)
 			c.cfg = v
 			v.Mark = serial
 		}
@@ -335,16 +342,21 @@ func (w *world) logD() {
 
 func (w *world) defaultFn() []interface{} {
 	d := w.d
+	mk := func() *Conf { // a NEW default configuration: nothing of it is shared with an earlier one
+		c := &Conf{A: d[0], B: d[1], C: d[2]}
+		w.ext.apply(c)
+		return c
+	}
 	switch w.sh.dflt {
 	case 'f':
 		if w.sh.cfg == 's' {
-			return []interface{}{func() Conf { w.logD(); return Conf{A: d[0], B: d[1], C: d[2]} }}
+			return []interface{}{func() Conf { w.logD(); return *mk() }}
 		}
-		return []interface{}{func() *Conf { w.logD(); return &Conf{A: d[0], B: d[1], C: d[2]} }}
+		return []interface{}{func() *Conf { w.logD(); return mk() }}
 	case 'n':
 		return []interface{}{func() *Conf { w.logD(); return nil }}
 	case 's':
-		sp := &Conf{A: d[0], B: d[1], C: d[2]}
+		sp := mk()
 		w.id(sp) // identity 0, owned by the default-config function from registration on
 		return []interface{}{func() *Conf { w.logD(); return sp }}
 	}
@@ -375,7 +387,7 @@ func (w *world) resOf(p interface{}, err error) string {
 	if c.cfg != nil {
 		cell = w.id(c.cfg)
 	}
-	return fmt.Sprintf("ok.%d.%s.%d/%d/%d/%d", c.serial, cell, c.seen.Mark, c.seen.A, c.seen.B, c.seen.C)
+	return fmt.Sprintf("ok.%d.%s.%d/%s", c.serial, cell, c.seen.Mark, w.seenText(c))
 }
 
 func (w *world) endStep(res string) {
@@ -422,7 +434,7 @@ func parseSet(s string) map[int]bool {
 
 func c18Run(input string) string {
 	kv := drv.KV(input)
-	if raceEnabled && kv["conc"] != "1" {
+	if raceEnabled && kv["conc"] != "1" && kv["via"] != "par" {
 		return "RACE-SKIP" // the -race driver is about the concurrent cases only
 	}
 	if kv["via"] == "reg" {
@@ -434,18 +446,10 @@ func c18Run(input string) string {
 	if kv["conc"] == "1" {
 		return c18Conc(kv)
 	}
-	w := &world{sh: parseShape(kv["sh"]), ids: map[*Conf]int{}, ff: parseSet(kv["ff"]), cf: parseSet(kv["cf"]), rf: parseSet(kv["rf"]),
-		plugT: ifaceT, bad: kv["bad"] == "1"}
-	w.vmin, _ = strconv.Atoi(kv["vmin"])
-	for i, t := range strings.Split(kv["d"], "/") {
-		w.d[i], _ = strconv.Atoi(t)
+	if kv["via"] == "par" {
+		return c18Par(kv)
 	}
-	for i, t := range strings.Split(kv["u"], "/") {
-		if t != "_" {
-			v, _ := strconv.Atoi(t)
-			w.u[i] = &v
-		}
-	}
+	w := worldOf(kv)
 	if kv["via"] == "engine" {
 		return c18Engine(kv, w)
 	}
@@ -519,13 +523,7 @@ func c18Run(input string) string {
 			if len(f) != 4 {
 				panic("phase " + ph)
 			}
-			w.u = [3]*int{}
-			for i, t := range strings.Split(f[2], "/") {
-				if t != "_" {
-					v, _ := strconv.Atoi(t)
-					w.u[i] = &v
-				}
-			}
+			w.u = parseU(f[2])
 			pk, _ := strconv.Atoi(f[3])
 			s0, p0 := len(w.steps), len(w.products)
 			newPlugin, newFactory := creators(f[1] == "1")
@@ -643,9 +641,15 @@ func (w *world) userKeys(m map[string]interface{}) { w.userKeysOf(w.u, m) }
 
 func (w *world) userKeysOf(u [3]*int, m map[string]interface{}) {
 	for i, key := range []string{"a", "b", "c"} {
-		if u[i] != nil {
+		switch {
+		case u[i] == nullInt:
+			m[key] = nil // `a:` / `a: ~`
+		case u[i] != nil:
 			m[key] = *u[i]
 		}
+	}
+	if w.ext.on {
+		extUserKeys(m, w.ux)
 	}
 	if w.bad {
 		m["a"] = "not-a-number"
